@@ -17,7 +17,16 @@ def HT : Byte := 9
 def crlf : Bytes := [CR, LF]
 
 /-- `"abc".b` : the octets of an ASCII/UTF-8 literal. -/
-def _root_.String.b (s : String) : Bytes := s.toUTF8.toList
+def _root_.String.b (s : String) : Bytes := s.toUTF8.data.toList
+
+/-- distinct literals have distinct octets (lets `simp` decide comparisons of keyword constants) -/
+theorem _root_.String.b_inj (s t : String) : s.b = t.b ↔ s = t := by
+  constructor
+  · intro h
+    apply String.toByteArray_inj.mp
+    apply ByteArray.ext
+    exact Array.toList_inj.mp h
+  · rintro rfl; rfl
 
 /-! ### hex transport encoding (lower case), `-` for the empty string -/
 
